@@ -173,6 +173,25 @@ func syncMethod(info *types.Info, c *ast.CallExpr) (string, ast.Expr, bool) {
 	return hook, x, true
 }
 
+// pipeHook returns the simhook wrapper for an io.Pipe end, "" for anything else.
+func pipeHook(t types.Type) string {
+	p, ok := t.(*types.Pointer)
+	if !ok {
+		return ""
+	}
+	named, ok := p.Elem().(*types.Named)
+	if !ok || named.Obj().Pkg() == nil || named.Obj().Pkg().Path() != "io" {
+		return ""
+	}
+	switch named.Obj().Name() {
+	case "PipeReader":
+		return "PipeReader"
+	case "PipeWriter":
+		return "PipeWriter"
+	}
+	return ""
+}
+
 func isMap(info *types.Info, e ast.Expr) bool {
 	t := info.TypeOf(e)
 	if t == nil {
@@ -237,6 +256,33 @@ func rewriteFile(p *packages.Package, f *ast.File) bool {
 				changed = true
 			}
 		case *ast.CallExpr:
+			// An *io.PipeReader / *io.PipeWriter handed to code that sees it as an
+			// interface (io.ReadAll, io.Copy, io.MultiWriter, a registry's PushBlob ...) is
+			// a blocking primitive the rewrite cannot see into: wrap it so that the
+			// goroutine parks as soon as a pipe operation returns.
+			if sig, ok := info.TypeOf(n.Fun).(*types.Signature); ok {
+				for i, a := range n.Args {
+					hook := pipeHook(info.TypeOf(a))
+					if hook == "" {
+						continue
+					}
+					var pt types.Type
+					switch {
+					case sig.Variadic() && i >= sig.Params().Len()-1:
+						if sl, ok := sig.Params().At(sig.Params().Len() - 1).Type().(*types.Slice); ok {
+							pt = sl.Elem()
+						}
+					case i < sig.Params().Len():
+						pt = sig.Params().At(i).Type()
+					}
+					if pt == nil || !types.IsInterface(pt) {
+						continue
+					}
+					n.Args[i] = call(hook, a)
+					count("io.Pipe end passed as interface")
+					changed = true
+				}
+			}
 			// crypto/rand.Read
 			if se, ok := n.Fun.(*ast.SelectorExpr); ok {
 				if fn, ok := info.Uses[se.Sel].(*types.Func); ok && fn.Pkg() != nil && fn.Pkg().Path() == "crypto/rand" && fn.Name() == "Read" {
